@@ -16,6 +16,12 @@ pub struct MonLog {
     next_id: usize,
 }
 
+/// TLC integers are 32-bit: a (wrapped) request size is logged capped at 2*10^9 -- it still
+/// exceeds any input and is rejected by the contract machine.
+fn cap(n: usize) -> u64 {
+    (n as u64).min(2_000_000_000)
+}
+
 pub struct MonReader {
     data: Rc<Vec<u8>>,
     pos: usize,
@@ -44,7 +50,7 @@ impl MonReader {
     fn fixed(&mut self, op: &str, n: usize) -> Vec<u8> {
         let rem = self.rem();
         let v = self.take(n);
-        self.log.borrow_mut().calls.push(json!([self.id, op, n, rem, bytes_json(&v)]));
+        self.log.borrow_mut().calls.push(json!([self.id, op, cap(n), rem, bytes_json(&v)]));
         v
     }
 }
@@ -63,7 +69,7 @@ impl Reader<Vec<u8>> for MonReader {
             let mut l = self.log.borrow_mut();
             let id = l.next_id;
             l.next_id += 1;
-            l.calls.push(json!([self.id, "sub", length, rem, id]));
+            l.calls.push(json!([self.id, "sub", cap(length), rem, id]));
             id
         };
         let r = MonReader { data: self.data.clone(), pos: self.pos, end: self.pos + k, id: new_id, log: self.log.clone() };
@@ -73,12 +79,12 @@ impl Reader<Vec<u8>> for MonReader {
     fn bytes(&mut self, length: usize) -> Option<Vec<u8>> {
         let rem = self.rem();
         if length > rem {
-            self.log.borrow_mut().calls.push(json!([self.id, "bytes", length, rem, 0]));
+            self.log.borrow_mut().calls.push(json!([self.id, "bytes", cap(length), rem, 0]));
             return None;
         }
         let v = self.data[self.pos..self.pos + length].to_vec();
         self.pos += length;
-        self.log.borrow_mut().calls.push(json!([self.id, "bytes", length, rem, 1]));
+        self.log.borrow_mut().calls.push(json!([self.id, "bytes", cap(length), rem, 1]));
         Some(v)
     }
     unsafe fn read_u8_unchecked(&mut self) -> u8 {
@@ -100,7 +106,7 @@ impl Reader<Vec<u8>> for MonReader {
         let rem = self.rem();
         let k = length.min(rem);
         self.pos += k;
-        self.log.borrow_mut().calls.push(json!([self.id, "skip", length, rem, 0]));
+        self.log.borrow_mut().calls.push(json!([self.id, "skip", cap(length), rem, 0]));
     }
 }
 
@@ -187,7 +193,7 @@ impl Writer for MonWriter {
         self.app(bytes)
     }
     fn write_bytes_at(&mut self, bytes: &[u8], offset: usize) {
-        self.calls.push(json!(["at", offset, bytes.len(), self.data.len()]));
+        self.calls.push(json!(["at", cap(offset), bytes.len(), self.data.len()]));
         if offset.checked_add(bytes.len()).map_or(false, |e| e <= self.data.len()) {
             self.data[offset..offset + bytes.len()].copy_from_slice(bytes);
         }
